@@ -430,7 +430,7 @@ def gen_scenario(rng, idx, strata=None):
     if scen["gw"] is not None and "gw_values" in st:
         scen["gw"]["values"] = [float(st["gw_values"][i % len(st["gw_values"])]) for i in range(len(scen["gw"]["values"]))]
     if scen["gw"] is not None and st.get("gw_shallow"):
-        scen["gw"]["values"] = [float(rng.choice([0.04, 0.12, 0.25])) for _ in scen["gw"]["values"]]
+        scen["gw"]["values"] = [float(rng.choice([0.0, 0.04, 0.12, 0.25])) for _ in scen["gw"]["values"]]
     c = rng.random()
     scen["co2"] = None if c < 0.6 else ({"constant": True, "current": float(rng.choice([0, 300, 369.41, 450, 700]))}
                                         if c < 0.85 else {"constant": False})
@@ -511,6 +511,16 @@ QUICK_STRATA = [
     dict(crop="Wheat", station="tunis_climate.txt", irr_method=0, soil="Loam", soil_kind="builtin", n_seasons=2,
          start_mode="after", off_season=False, planting="10/15",
          co2={"constant": False, "series": [[1900, 300.0], [1975, 330.0], [1980, 380.0], [1985, 460.0], [1990, 540.0], [2100, 700.0]]}),
+    # three layers whose conductivity falls with depth under storms, behind low bunds and without: water that cannot
+    # drain backs up to the surface from more than one compartment on the same day
+    dict(crop="Tomato", irr_method=0, soil_kind="custom", dz=[0.1] * 12,
+         layers=[[0.3, 0.10, 0.22, 0.41, 800, 100], [0.4, 0.23, 0.39, 0.50, 60, 100], [1.3, 0.39, 0.54, 0.55, 4, 100]],
+         synth=True, regime="storm", fm="bunds", fm_over={"z_bund": 0.05, "bund_water": 0.0}, n_seasons=1, start_mode="at",
+         iwc={"wc_type": "Prop", "method": "Layer", "depth_layer": [1, 2, 3], "value": ["SAT", "SAT", "FC"]}),
+    # compartments of unequal thickness over a slowly permeable pan, saturated start, no bunds
+    dict(crop="PaddyRice", station="hyderabad_climate.txt", irr_method=0, soil="Paddy", soil_kind="builtin",
+         dz=[0.05] * 2 + [0.1] * 4 + [0.25] * 4, fm="none", synth=True, regime="storm", n_seasons=1, start_mode="at",
+         iwc={"wc_type": "Prop", "method": "Layer", "depth_layer": [1, 2], "value": ["SAT", "SAT"]}),
     # an interpolated ("Variable") water-table record with observations on both sides of the simulated period
     dict(crop="Wheat", station="tunis_climate.txt", irr_method=0, soil="SandyLoam", soil_kind="builtin", n_seasons=1,
          start_mode="before", off_season=True, gw_spec={"method": "Variable", "offsets": [-80, 70, 900], "values": [2.2, 1.1, 2.6]}),
